@@ -206,6 +206,7 @@ package cqrs
 //@   modifies msg.ctx
 
 //@ func (EventGroupProcessor).routerHandlerGroupFunc$1
+//@   assert @call:handle: messageEventName == mnfm(p.config.Marshaler, msg) && messageEventName == expectedEventName && expectedEventName == mname(p.config.Marshaler, initEvent) [a-handler-is-invoked-only-for-a-message-whose-name-is-the-configured-name-of-the-handlers-event-type]
 //@   assert @call:p.config.Marshaler.Unmarshal: calls(NE) >= 1 && event == ret(NE, 0, calls(NE) - 1) [the-message-is-decoded-into-a-value-this-handler-has-just-created]
 //@   assert @call:handle: calls(UM) >= 1 && arg(UM, 0, calls(UM) - 1) == msg && arg(UM, 1, calls(UM) - 1) == event && calls(NE) >= 1 && event == ret(NE, 0, calls(NE) - 1) [each-handler-of-the-group-is-given-its-own-freshly-decoded-value]
 //@   assert @call:handle: msg.ctx != nil && ctxval(msg.ctx, boxed(originalMessage)) == boxed(msg) [the-message-handed-to-the-handler-or-to-OnHandle-carries-itself-as-the-original-message-in-its-context]
